@@ -12,8 +12,10 @@ RULE = ("probe decks for one macrobody card: whole body ('-b' / '+b') and every 
         'reversed height), ARB hexahedron and prism with shuffled facet descriptors; 300 points per deck; Lean spec '
         '(solid = all facet functions negative, facet k = k-th function, outward positive) vs written file. '
         'Streams mixed / filled: macrobodies and their facets inside BSP decks and inside transformed universes. Distinct = (body, parameters, facet).')
-NOT_PROVED = ['ARB (vertex table, facet descriptors, orientation by the centroid): decided by the macromodel correspondence '
-              'and the Lean spec monitor on probe decks, no theorem']
+NOT_PROVED = ['every body of the table has its theorem; macrobodies under a transformation or inside a filled universe are '
+              'the composition with C04 / C05, decided by the mixed / filled streams (point monitor), not by a composed theorem',
+              'degenerate bodies (zero edge, collinear ARB vertices, centroid in a facet plane) are outside the hypotheses: the '
+              'model rejects them where the code raises (macromodel correspondence)']
 ASSUMPTIONS = ['right boxes / wedges / prisms, convex ARB with planar facets (MCNP admissibility)']
 
 
